@@ -48,7 +48,7 @@ static inline void gen_ilu_options(Rng &r, Op &o) {
     o.filltol = ft[r.below(3)];
     o.rowperm = r.chance(0.6) ? LargeDiag_MC64 : NOROWPERM;
     o.thresh = r.chance(0.5) ? 0.1 : (r.chance(0.5) ? 1.0 : 0.01);
-    o.refine = NOREFINE; o.symmode = 0;
+    o.refine = NOREFINE; o.symmode = (o.symmode && (o.rhs_seed & 4)) ? 1 : 0; // symmetric mode (ilu_heap_relax_snode) in half of the cases that drew it
     if (o.colperm == MY_PERMC && r.chance(0.5)) o.colperm = COLAMD;
 }
 
